@@ -296,10 +296,11 @@ def reachable(G, roots):
 def diagnose(G):
     """list of human-readable reasons why the Coq theorems cannot hold"""
     out = []
-    for e in G["entries"]:
-        p = find_path(G, [e], G["forbidden"])
-        if p:
-            out.append({"entry": G["dem"][e], "forbidden": G["dem"][p[-1]],
+    R0 = reachable(G, G["entries"])
+    for f in G["forbidden"]:
+        if f in R0:
+            p = find_path(G, G["entries"], [f])      # shortest, from whichever entry is nearest
+            out.append({"entry": G["dem"][p[0]], "forbidden": G["dem"][f],
                         "path": [G["dem"][x] for x in p], "path_symbols": p})
     R = reachable(G, G["entries"])
     dset, aset = set(G["defined"]), set(G["allowed"])
